@@ -84,7 +84,8 @@ def resolve(scope, index, dotted):
     return None, corner
 
 
-def render(scope, depth=0):
+def render(scope, depth=0, array=False):
+    """array: the uses under test (fields f / f0) are written `<name>[2]` - two textually equal array types that must resolve separately."""
     ind = "    " * depth
     lines = []
     for it in scope.items:
@@ -94,10 +95,10 @@ def render(scope, depth=0):
             lines.append("%s}" % ind)
         elif it[0] == "msg":
             lines.append("%smessage %s {" % (ind, it[1].name))
-            lines.extend(render(it[1], depth + 1))
+            lines.extend(render(it[1], depth + 1, array))
             lines.append("%s}" % ind)
         elif it[0] == "use":
-            lines.append("%s%s %s = %d" % (ind, it[1], it[2], it[3]))
+            lines.append("%s%s%s %s = %d" % (ind, it[1], "[2]" if array and it[2] in ("f", "f0") else "", it[2], it[3]))
         elif it[0] == "const":
             lines.append("%sconst %s = %d" % (ind, it[1], it[2]))
         elif it[0] == "import":
@@ -211,6 +212,8 @@ def cases(tier):
         choice = dict(zip("FABC", combo))
         for use in "CBAD":
             out.append(dict(kind="simple", choice=choice, use=use, dotted="X", shadow=None))
+            if sum(1 for x in combo if x) >= 2:
+                out.append(dict(kind="simple", choice=choice, use=use, dotted="X", shadow=None, array=True))
     # (2) dotted paths
     dotted_uses = [("A", "B.X"), ("A", "B.C.X"), ("B", "C.X"), ("D", "A.X"), ("D", "A.B.X"), ("D", "A.B.C.X"), ("C", "B.X"), ("C", "A.B.X"), ("B", "A.X"),
                    ("C", "lib.X"), ("B", "lib.A.X"), ("A", "lib.A.B.X"), ("D", "al.X"), ("C", "al.A.B.X"), ("D", "lia.X"), ("A", "lib.B.X"), ("D", "C.X")]
@@ -238,6 +241,8 @@ def cases(tier):
                     choice[outer] = "b"
                     choice[early] = "b"
                     out.append(dict(kind="two-uses", choice=choice, use=use, dotted=dotted, shadow=None, early=early))
+                    if dotted == "X":
+                        out.append(dict(kind="two-uses", choice=choice, use=use, dotted=dotted, shadow=None, early=early, array=True))
     # (4) constants as capacities
     for use in "CBAD":
         for dotted in ("K", "lib.K", "al.K", "KL", "lib.KX"):
@@ -251,7 +256,7 @@ def materialise(case):
         f.add(("const", "KL", 9))  # declared after every use
     else:
         f = build(case["choice"], case["use"], case["dotted"], case["shadow"], early=case.get("early"))
-    text = "proto t\n\n" + "\n".join(render(f)) + "\n"
+    text = "proto t\n\n" + "\n".join(render(f, array=bool(case.get("array")))) + "\n"
     return f, text
 
 
@@ -351,10 +356,15 @@ def run_unit(unit):
                 s2 = s2.parent
             msg = proto.get_member(*names)
             fld = [x for x in msg.fields() if x.name == "f"][0]
+            mult = 2 if case.get("array") else 1
             if case["kind"] == "const":
                 got = fld.type.cap
             else:
                 got = fld.type.nbits()
+                if got % mult:
+                    viol("resolved_to_wrong_definition", "array field of %d bits is not %d elements of one width" % (got, mult))
+                    continue
+                got //= mult
             out.outcome("accept", got)
             if got != exp_val:
                 viol("resolved_to_wrong_definition", "field gets width/value %s, the innermost visible earlier definition has %s" % (got, exp_val))
@@ -368,9 +378,9 @@ def run_unit(unit):
                     names0.insert(0, s3.name)
                     s3 = s3.parent
                 fld0 = [x for x in proto.get_member(*names0).fields() if x.name == "f0"][0]
-                if exp0 is not None and exp0[0] == "enum" and fld0.type.nbits() != exp0[2]:
-                    viol("early_use_resolved_to_wrong_definition", "early use gets width %s, expected %s" % (fld0.type.nbits(), exp0[2]))
-            if k % 8 == 0 and case["kind"] != "const":
+                if exp0 is not None and exp0[0] == "enum" and fld0.type.nbits() != exp0[2] * mult:
+                    viol("early_use_resolved_to_wrong_definition", "early use gets width %s, expected %s" % (fld0.type.nbits(), exp0[2] * mult))
+            if k % 8 == 0 and case["kind"] != "const" and not (case.get("early") and case["early"] == case["use"]):
                 # the resolved definition is also the one the encoded layout gets
                 from ..pyback import render_strings
                 py = "\n".join(render_strings(proto, "py").values())
@@ -378,8 +388,8 @@ def run_unit(unit):
                 cname = "_".join(names)
                 m = re.search(r"class %s\(bp\.MessageBase\):\n\s+# Number.*\n\s+BYTES_LENGTH: ClassVar\[int\] = (\d+)" % cname, py)
                 out.count("layout_checks")
-                if not m or int(m.group(1)) != (exp_val + 7) // 8:
-                    viol("layout_uses_other_definition", "BYTES_LENGTH of %s is %s, expected %d" % (cname, m.group(1) if m else None, (exp_val + 7) // 8))
+                if not m or int(m.group(1)) != (exp_val * mult + 7) // 8:
+                    viol("layout_uses_other_definition", "BYTES_LENGTH of %s is %s, expected %d" % (cname, m.group(1) if m else None, (exp_val * mult + 7) // 8))
             if k % 50 == 0:
                 out.sample(dict(case=dict(case, choice=dict(case["choice"])), resolved_width=got, schema=text[-500:]))
     return out.result()
